@@ -126,10 +126,20 @@ func (x *Exec) specType(sc *specScope, name string) types.Type {
 		}
 		return types.NewPointer(et)
 	}
-	if !strings.Contains(name, ".") && sc.fr != nil && sc.fr.fn.Pkg != nil {
-		if o := sc.fr.fn.Pkg.Pkg.Scope().Lookup(name); o != nil {
-			if _, ok := o.(*types.TypeName); ok {
-				return o.Type()
+	if !strings.Contains(name, ".") && sc.fr != nil && sc.fr.fn != nil {
+		f := sc.fr.fn
+		for f.Parent() != nil {
+			f = f.Parent()
+		}
+		pkg := f.Pkg
+		if pkg == nil && f.Origin() != nil {
+			pkg = f.Origin().Pkg // instance of a generic function: the package of the generic
+		}
+		if pkg != nil {
+			if o := pkg.Pkg.Scope().Lookup(name); o != nil {
+				if _, ok := o.(*types.TypeName); ok {
+					return o.Type()
+				}
 			}
 		}
 	}
